@@ -217,12 +217,25 @@ impl World {
                     Err(_) => json!({"k":"absent"}),
                 }
             }).collect();
+            // the xml:id index of the other store, asked through the same document handles
+            let mut txid: Vec<J> = vec![];
+            for id in 1..=n {
+                let h = self.h(id);
+                let live_doc = std::panic::catch_unwind(std::panic::AssertUnwindSafe(|| !self.xot.is_removed(h) && self.xot.is_document(h))).unwrap_or(false);
+                if live_doc {
+                    for v in ["i1", "i2", "i3", "x y", "dup"] {
+                        if let Ok(Some(found)) = std::panic::catch_unwind(std::panic::AssertUnwindSafe(|| self.xot.xml_id_node(h, v))) {
+                            txid.push(json!([id, v, self.known(found).unwrap_or(0)]));
+                        }
+                    }
+                }
+            }
             std::mem::swap(&mut self.xot, &mut *other);
             self.twin = Some(other);
             self.corrupt = was_corrupt;
-            json!({"has": true, "n": tn})
+            json!({"has": true, "n": tn, "xid": txid})
         } else {
-            json!({"has": false, "n": []})
+            json!({"has": false, "n": [], "xid": []})
         };
         json!({"n": nodes, "cons": self.cons, "eo": self.ever_off, "rs": rs, "bad": if self.corrupt { "walk-bound" } else { "" }, "tw": tw, "xid": xid})
     }
